@@ -36,6 +36,8 @@ type step struct {
 	CrashK     int
 	DryRun     bool
 	Files      []tfile
+	Order      string // "" (linear) | linear-skip | non-linear: --exec-order (round 5)
+	KillSQL    string // round 5: "<regex>@<n>:before|after" -> VERIF_SQL_KILL through the sqlitekill:// scheme of the verif build
 	// round 4 (storage contract): run through the sqlitefault:// scheme of the verif build
 	UseFault bool   // log the statements that reach the driver (VERIF_SQL_LOG)
 	Fault    string // "r@n" / "w@n": the n-th read / write of atlas_schema_revisions fails with "database is locked"
@@ -92,7 +94,11 @@ func (s step) tokens() []string {
 	if cp == "" {
 		cp = "-"
 	}
-	toks := []string{s.Mode, fmt.Sprint(s.N), cp, fmt.Sprint(ck), fmt.Sprint(len(s.Files))}
+	mtok := s.Mode
+	if s.Order != "" {
+		mtok += "/" + s.Order
+	}
+	toks := []string{mtok, fmt.Sprint(s.N), cp, fmt.Sprint(ck), fmt.Sprint(len(s.Files))}
 	fs := append([]tfile{}, s.Files...)
 	sort.Slice(fs, func(i, j int) bool { return fs[i].name() < fs[j].name() })
 	for _, f := range fs {
@@ -205,13 +211,22 @@ func runScenarioX(steps []step, setup []string, probe []string) ([]obs, error) {
 			scheme = "sqlitefault://"
 			os.Remove(sqllog)
 		}
+		if s.KillSQL != "" {
+			scheme = "sqlitekill://"
+		}
 		args = append(args, "--dir", "file://"+mdir, "--url", scheme+db, "--tx-mode", s.Mode, "--allow-dirty")
 		if s.DryRun {
 			args = append(args, "--dry-run")
 		}
+		if s.Order != "" {
+			args = append(args, "--exec-order", s.Order)
+		}
 		var env []string
 		if s.CrashPoint != "" {
 			env = append(env, fmt.Sprintf("VERIF_CRASH_AT=%s:%d", s.CrashPoint, s.CrashK))
+		}
+		if s.KillSQL != "" {
+			env = append(env, "VERIF_SQL_KILL="+s.KillSQL)
 		}
 		if s.UseFault {
 			env = append(env, "VERIF_SQL_LOG="+sqllog)
@@ -337,6 +352,13 @@ func main() {
 		fmt.Fprintln(os.Stderr, "missing -out")
 		os.Exit(2)
 	}
+	if *mode == "gen" {
+		if err := genCrashPoints(*outDir); err != nil {
+			fmt.Fprintln(os.Stderr, "gen:", err)
+			os.Exit(1)
+		}
+		return
+	}
 	if _, err := os.Stat(clirun.Bin()); err != nil {
 		fmt.Fprintln(os.Stderr, "atlas binary not found:", clirun.Bin())
 		os.Exit(2)
@@ -352,6 +374,9 @@ func main() {
 		jobs = genC13(w, *tier, &mu)
 	case "c13dry":
 		clirun.Parallel(16, genC13Dry(w, *tier, &mu))
+		return
+	case "c10lock":
+		clirun.Parallel(16, genC10Lock(w, *tier, &mu))
 		return
 	case "c13fk":
 		clirun.Parallel(16, genC13Fk(w, *tier, &mu))
@@ -490,6 +515,9 @@ func genC10(w *out.W, tier string, mu *sync.Mutex) []job {
 	w.Rule += fmt.Sprintf(". Plus %d large-transaction crash scenarios (oracle on the engine side; the journal/revision observations are also compared with the model): a file of 150 statements, alone or after a one-statement file, tx-mode {file, all}, where every statement also writes a 40 kB row into a table that existed before and updates one of 400 pre-existing 3 kB rows (a different one per statement, so committed pages are modified, go cold and are spilled) through a trigger (6 MB in one transaction, beyond SQLite's page cache), killed after half / all of its statements, before its last statement, after its last revision write, before its commit and (control) after its commit; counted as reaching the class only if the killed process left a non-empty rollback journal and a database file > 1 MB, i.e. uncommitted pages had been spilled into the database file", len(big))
 	jobs = append(jobs, big...)
 	jobs = append(jobs, genC10Store(w, tier, mu)...)
+	jobs = append(jobs, genC10Order(w, tier)...)
+	jobs = append(jobs, genC10SQLKill(w, tier)...)
+	censusCheck(w, jobs)
 	return jobs
 }
 
